@@ -9,11 +9,12 @@ import json
 import vlib
 from checks import termination_common as tc
 
-NSIM = {"quick": (500, 120), "thorough": (9000, 2500)}
+NSIM = {"quick": (400, 100), "thorough": (9000, 2500)}
 WEAK = {"Termination_WeakDeleteOk.cfg": "Act_C09_NodeFinalizer", "Termination_WeakVolumes.cfg": "Act_C09_NodeFinalizer",
         "Termination_WeakDrain.cfg": "Act_C09_NodeFinalizer", "Termination_WeakTaint.cfg": "Act_C09_NodeFinalizer",
         "Termination_WeakClaimNodes.cfg": "Act_C09_ClaimFinalizer",
-        # the finalize path as the code has it / a restart after the failed status patch: the model itself shows the leak
+        "Termination_WeakDrainCached.cfg": "Act_C09_NodeFinalizer", "Termination_WeakDetaching.cfg": "Act_C09_NodeFinalizer",
+        # the finalize path as the code had it before the fix of F-C09-1 / a restart after the failed status patch: the model itself shows the leak
         "Termination_Defect.cfg": "Inv_C09_NoLeak", "Termination_DefectRestart.cfg": "Inv_C09_NoLeakStrict"}
 
 
@@ -29,7 +30,9 @@ def check(run):
                 "+ failing launch patches; each replayed on the real lifecycle, node-termination controllers and eviction queue; "
                 "non-trivial = the real trace contains a finalizer-removing patch of the Node or the NodeClaim by Karpenter")
     thorough = run.tier == "thorough"
-    models = ["Termination_MC.cfg"] + (["Termination_MCfine.cfg", "Termination_MCbig.cfg", "Termination_Live.cfg"] if thorough else [])
+    models = ["Termination_MC.cfg", "Termination_MClate.cfg"] + (
+        ["Termination_MCfine.cfg", "Termination_MCfinelate.cfg", "Termination_MCbig.cfg", "Termination_MClatebig.cfg", "Termination_Live.cfg"]
+        if thorough else [])
     tc.parallel_tlc(run, "Termination", models, WEAK, coverage=thorough, workers=6 if thorough else 4)
     behs = behaviours(run)
     files = tc.record(run, behs)
